@@ -192,24 +192,20 @@ Definition import_pages (fetch : fetch_t) (g : graph) (fuel : nat) (ps : list pa
     fuel that always suffices (ImportProofs.clone_total): one unit per nesting level of a value, and for
     every reference that can still be memoised the deepest object plus two *)
 Fixpoint depth (v : prim) : nat :=
-  let fix dl (l : list prim) : nat := match l with [] => O | x :: t => Nat.max (depth x) (dl t) end in
-  let fix dd (d : dict) : nat := match d with [] => O | (_, x) :: t => Nat.max (depth x) (dd t) end in
   match v with
-  | PArr l => S (dl l)
-  | PDict d => S (dd d)
-  | PStream d _ _ _ _ => S (dd d)
-  | PStreamData d _ => S (dd d)
+  | PArr l => S (fold_right (fun x a => Nat.max (depth x) a) O l)
+  | PDict d => S (fold_right (fun kv a => Nat.max (depth (snd kv)) a) O d)
+  | PStream d _ _ _ _ => S (fold_right (fun kv a => Nat.max (depth (snd kv)) a) O d)
+  | PStreamData d _ => S (fold_right (fun kv a => Nat.max (depth (snd kv)) a) O d)
   | _ => 1%nat
   end.
 
 Fixpoint refs_of (v : prim) : list ref :=
-  let fix rl (l : list prim) : list ref := match l with [] => [] | x :: t => refs_of x ++ rl t end in
-  let fix rd (d : dict) : list ref := match d with [] => [] | (_, x) :: t => refs_of x ++ rd t end in
   match v with
-  | PArr l => rl l
-  | PDict d => rd d
-  | PStream d _ _ _ _ => rd d
-  | PStreamData d _ => rd d
+  | PArr l => flat_map refs_of l
+  | PDict d => flat_map (fun kv => refs_of (snd kv)) d
+  | PStream d _ _ _ _ => flat_map (fun kv => refs_of (snd kv)) d
+  | PStreamData d _ => flat_map (fun kv => refs_of (snd kv)) d
   | PRef i gn => [(i, gn)]
   | _ => []
   end.
